@@ -95,9 +95,16 @@ theorem pooled_refines_pool_free (fix : Bool) (t0 : Nat) (h : List (TOp × Nat))
     let p := EntryPool.runR fix t0 h
     let s := Entry.runR fix t0 (h.map (·.1))
     (∀ k, EntryPool.nodeOf p k = Entry.nodeOf s k) ∧ p.log = s.log ∧
-    (∀ id, EntryPool.obsCtx p id = Entry.obsCtx s id) := by
+    (∀ id, EntryPool.obsCtx p id = Entry.obsCtx s id) ∧
+    (∀ id, EntryPool.obsEntered p id = Entry.obsEntered s id) := by
   have r := EntryPool.rel_runR fix t0 h
-  refine ⟨?_, r.log, ?_⟩
+  refine ⟨?_, r.log, ?_, ?_⟩
+  rotate_left 2
+  · intro id
+    unfold EntryPool.obsEntered Entry.obsEntered
+    have := r.isnil id
+    cases hp : EntryPool.findP (EntryPool.runR fix t0 h).ents id <;>
+      cases hs : findE (Entry.runR fix t0 (h.map (·.1))).ents id <;> rw [hp, hs] at this <;> simp_all
   · intro k
     cases k with
     | none => simp only [EntryPool.nodeOf, Entry.nodeOf, r.inb]
@@ -136,7 +143,7 @@ theorem pooled_refines_ledger (fix : Bool) (t0 : Nat) (h : List (TOp × Nat)) (h
     (EntryPool.nodeOf (EntryPool.runR fix t0 h) k).map (fun n => viewSum n.arr Iv now) = ledWindow fix (h.map (·.1)) k Iv now ∧
     (EntryPool.nodeOf (EntryPool.runR fix t0 h) k).map (·.conc) = ledConc fix (h.map (·.1)) k ∧
     (∀ id, EntryPool.obsCtx (EntryPool.runR fix t0 h) id = ledCtx (h.map (·.1)) id) := by
-  obtain ⟨h1, _, h3⟩ := pooled_refines_pool_free fix t0 h
+  obtain ⟨h1, _, h3, _⟩ := pooled_refines_pool_free fix t0 h
   have hrev : ((h.map (·.1)).reverse).reverse = h.map (·.1) := List.reverse_reverse _
   have hm' : Mono t0 (h.map (·.1)).reverse := by unfold Mono; rw [hrev]; exact hm
   have hnow' : lastT t0 ((h.map (·.1)).reverse).reverse ≤ now := by rw [hrev]; exact hnow
@@ -149,6 +156,17 @@ theorem pooled_refines_ledger (fix : Bool) (t0 : Nat) (h : List (TOp × Nat)) (h
   · rw [h1 k]; exact w
   · rw [h1 k]; exact c
   · intro id; rw [h3 id]; exact x id
+
+/-- why the `exited` guard matters (the repaired defect `late-exit-error`, kept as a regression witness): with the
+unguarded `SetError`, a late `TraceError` on an exited entry reaches the entry that now owns the recycled object -/
+theorem late_exit_error_witness :
+    let e1 : EntryOp := { id := 1, res := "x1", inbound := false, batch := 1, args := [], chain := {} }
+    let e2 : EntryOp := { id := 2, res := "x2", inbound := false, batch := 1, args := [], chain := {} }
+    let p := EntryPool.runR false 1000 [((1000, .entry e2), 0), ((1000, .exit 1 none), 0), ((1000, .entry e1), 0)]
+    EntryPool.obsCtx p 2 = some (none, []) ∧
+    EntryPool.obsCtx (EntryPool.apiTrace p 1 (some "late")) 2 = some (none, []) ∧
+    EntryPool.obsCtx (EntryPool.apiTraceUnguarded p 1 (some "late")) 2 = some (some "late", []) := by
+  decide
 
 /-! ## (2) corollaries: what the ledger says, hence what the model does
 
